@@ -11,6 +11,7 @@ package serf
 
 //@ import "github.com/hashicorp/memberlist"
 //@ import "time"
+//@ import "log"
 
 //@ pure func maxU64() uint64 { return 18446744073709551615 }
 
@@ -1157,6 +1158,8 @@ package serf
 //@   ensures wf [C09]: wfSerf(d.serf) && wfEvents(d.serf)
 //@   # a state-sync merge never queues a re-broadcast (C04, second sentence)
 //@   ensures no_rebroadcast [C04,C09]: logN("queued") == q0
+//@   # state sync only ever raises the user-event cut-off (join with "ignore old events") and never touches the query one
+//@   ensures cutoffs_only_raised [C14]: d.serf.eventMinTime >= old(d.serf.eventMinTime) && d.serf.queryMinTime == old(d.serf.queryMinTime)
 //@   loop 1 vars ri=rangeindex int
 //@   loop 1 invariant idx [C09]: -1 <= ri
 //@   loop 1 invariant members [C09]: wfSerf(d.serf)
@@ -1403,6 +1406,26 @@ package serf
 //@   loop 2 vars ri=rangeindex int
 //@   loop 2 invariant departed [C12]: -1 <= ri && wfSnap(s) && same(s.aliveNodes, old(s.aliveNodes)) && forall(func(i int) bool { return 0 <= i && i <= ri ==> !snapMemory(s, e.Members[i].Name) }) &&
 //@       forall(func(k string) bool { return !old(snapMemory(s, k)) ==> !snapMemory(s, k) })
+//@ end
+
+// ---------------------------------------------------------------- no re-delivery after a restart (C14)
+
+// what a snapshot restored: NewSnapshotter replays the file and hands back the snapshotter holding the last recorded
+// clock values (the replay of the file itself is C10 and not under contract)
+//@ func NewSnapshotter(path string, minCompactSize int, rejoinAfterLeave bool, logger *log.Logger, clock *LamportClock, outCh chan<- Event, shutdownCh <-chan struct{}) (inCh chan<- Event, snap *Snapshotter, err error)
+//@   trusted
+//@   assigns
+//@   ensures made: err == nil ==> snap != nil && inCh != nil
+//@ end
+
+// a node created with a snapshot refuses, from the start, every user event and query at or below the newest Lamport
+// time the snapshot recorded (handleUserEvent / handleQuery drop everything below the cut-offs, see C05/C08)
+//@ func Create(conf *Config) (s *Serf, err error)
+//@   requires conf: conf != nil && conf.MemberlistConfig != nil
+//@   ensures created [C14]: err == nil ==> s != nil
+//@   ensures cutoffs_restored [C14]: err == nil && s.snapshotter != nil ==>
+//@       s.eventMinTime == s.snapshotter.lastEventClock+1 && s.queryMinTime == s.snapshotter.lastQueryClock+1
+//@   ensures snapshot_used_when_configured [C14]: err == nil && old(conf.SnapshotPath) != "" ==> s.snapshotter != nil
 //@ end
 
 // END-OF-CONTRACTS
